@@ -471,6 +471,12 @@ Proof.
   - destruct (eusable g (idx w)) eqn:Hu; [|discriminate]. inversion Hstep; subst g'.
     pose proof (agreeE_usable_live g h AG (idx w) Hu) as Hl. rewrite addr_idx in Hl.
     split; [exact Hl|]. intros h' S. eapply agreeE_stable; eauto.
+  - destruct (eusable g (idx w) && match j with Some a => eusable g (idx a) | None => true end) eqn:Hc; [|discriminate].
+    inversion Hstep; subst g'. apply andb_prop in Hc. destruct Hc as [Hu Hj].
+    pose proof (agreeE_usable_live g h AG (idx w) Hu) as Hl. rewrite addr_idx in Hl.
+    split; [split; [exact Hl|split]|intros h' S; eapply agreeE_stable; eauto].
+    + intros a Ea. subst j. pose proof (agreeE_usable_live g h AG (idx a) Hj) as Hla. rewrite addr_idx in Hla. exact Hla.
+    + intros _. pose proof (agreeE_usable g h AG (idx w) Hu) as Ha. rewrite addr_idx in Ha. exact Ha.
   - inversion Hstep; subst g'. split; [exact I|]. intros h' S. eapply agreeE_stable; eauto.
   - (* OFrameRef *)
     destruct (ealive g (idx w)) eqn:Hh; [|discriminate]. inversion Hstep; subst g'. clear Hstep.
